@@ -16,7 +16,7 @@ MANIFEST = {
  'design_ref': 'DESIGN.md §6 C03',
 }
 THEOREMS = ['C03.check_eq_spec', 'C03.anti_symm', 'C03.owner_all', 'C03.case_insens', 'C03.add_case_insens',
-            'C03.unknown_only_defaults', 'C03.invert_invert', 'C03.isAnti_invert', 'C03.invertCapability_toLower',
+            'C03.unknown_only_defaults', 'C03.recognise_needs_hostmask', 'C03.invert_invert', 'C03.isAnti_invert', 'C03.invertCapability_toLower',
             'C03.fromChannel_makeChannel', 'C03.edits_preserve_wf', 'C03.initial_strong', 'C03.history_wf',
             'C03.setDefaults_keeps_antiowner', 'C03.unknown_never_owner', 'C03.touch_invisible',
             'C03.touch_invisible_check', 'C03.checkCapabilities_spec', 'C03.anti_symm_needs_valid',
@@ -134,10 +134,9 @@ class OState(object):
                 return None, ('dup' if hits else 'unknown')
             u = hits[0]
         else:
-            named = [u for u in self.users.values() if u.name.lower() == h.lower()]
-            if not named:
-                return None, 'unknown'
-            u = named[0]
+            # a sender whose prefix is not nick!user@host (a server, a service, a bare nick) is nobody —
+            # in particular not the account whose NAME equals the prefix
+            return None, 'not-a-user-prefix'
         if u.secure and not any(o_glob(p, h) for p in u.masks):
             return None, 'secure-reject'
         return u, 'known'
